@@ -151,7 +151,62 @@ def run_one(ctx, text, fragment):
 
 
 def witness_case(ctx, w):
+    if "conforming" in w:
+        conforming_case(ctx, w["conforming"])
+        return
     run_one(ctx, w["input"], None)
+
+
+DOC = "<!DOCTYPE html><html><head><title>t</title></head><body>%s</body></html>"
+# conforming attribute / text syntax variants.  An ampersand that does not start a character reference (followed by white space,
+# `<`, `&`, the closing quote of its value, `>` ending an unquoted value, or the end of the text) is conforming in every syntax.
+CONF_VALUES = ["R&", "a & b", "?q=1&", "&", "a &", "x&amp;y", "a&#38;b", "1 &lt; 2", "a && b"]
+# ... and so is an ampersand followed by anything that is not `alnum+ ;` (the standard's "ambiguous ampersand" needs the
+# semicolon): html5lib reports expected-named-entity for these (recorded finding)
+AMP_VALUES = ["a&.b", "a&=b", "a&zq", "x&-y", "a&zq b", "?a=1&zb=2", "a&!"]
+
+
+def variants(v):
+    yield "<p title=\"%s\">x</p>" % v
+    yield "<p title='%s'>x</p>" % v
+    if not any(c in v for c in " \t\n\"'=<>`"):
+        yield "<p title=%s>x</p>" % v
+        yield "<p title=%s id=i>x</p>" % v
+    yield "<p>%s</p>" % v
+    yield "<p>%s<b>y</b></p>" % v
+    yield "<p title='a\"b' lang=\"x'y\">%s</p>" % v
+
+
+def conforming_case(ctx, body):
+    import html5lib
+    from h5 import trees
+    text = DOC % body
+    p = html5lib.HTMLParser()
+    t = p.parse(text)
+    ctx.case("conforming-syntax-variants", text, nontrivial=True)
+    ctx.count("conforming-syntax-variants")
+    if not p.errors:
+        return
+    cls = "conforming-document-reports-error:%s" % p.errors[0][1]
+    if all(e[1] == "expected-named-entity" for e in p.errors):
+        # recorded class only if the defect explains everything: every error sits on an ampersand that starts no reference
+        # (not followed by `alnum* ;`, `#`, or a legacy name), and with those ampersands written `&amp;` the same tree comes
+        # out without any error
+        import re
+        from html5lib.constants import entities
+        legacy = [k for k in entities if not k.endswith(";")]
+
+        def plain(m):
+            rest = text[m.end():]
+            if rest[:1] in ("", " ", "\t", "\n", "\x0c", "\r", "<", "&", '"', "'", ">"):
+                return False        # html5lib is silent here (or the character may close the value): not the recorded defect
+            return not (rest.startswith("#") or re.match(r"[A-Za-z0-9]+;", rest) or any(rest.startswith(k) for k in legacy))
+        esc = re.sub(r"&", lambda m: "&amp;" if plain(m) else "&", text)
+        p2 = html5lib.HTMLParser()
+        t2 = p2.parse(esc)
+        if not p2.errors and trees.from_etree(t2) == trees.from_etree(t):
+            cls += ":ampersand-not-starting-a-reference"
+    ctx.fail(cls, "a conforming document records a parse error", {"conforming": body, "input": text, "errors": repr(p.errors[:3])})
 
 
 def real_parsex(T, text, container, scripting, nshtml, strict):
@@ -286,6 +341,9 @@ def run(ctx):
         if p.errors:
             ctx.fail("conforming-document-reports-error:%s" % p.errors[0][1], "a conforming document records a parse error",
                      {"input": text[:600], "errors": repr(p.errors[:3])})
+    for v in CONF_VALUES + AMP_VALUES:
+        for body in variants(v):
+            conforming_case(ctx, body)
     # character references in a conforming document: a numeric reference is conforming exactly when the standard's
     # numeric-character-reference-end state reports nothing for it; named references with their semicolon always are
     def ref_allowed(n):
